@@ -113,7 +113,7 @@ func TestVerif_C01(t *testing.T) {
 	run.Assume("accepted span = AddSpan/AddSpanFromPeer returned nil; forwarded = snapshot taken at Transmission.EnqueueSpan")
 	run.Assume("kept-record retention is measured conservatively: a trace is exempt when ≥ KeptSizePerWorker other traces of its worker used the kept LRU after its decision")
 
-	n := run.N(180, 2600)
+	n := run.N(160, 2600)
 	steps := run.N(60, 150)
 	var exempt, evaluated int
 	one := func(label string, i int, h *E1History) {
@@ -182,6 +182,10 @@ func TestVerif_C01(t *testing.T) {
 	// a whole batch of traces is decided while the outgoing queue is full and the upstream takes nothing
 	run.Cases("stalled-upstream", run.N(4, 40), func(i int, rng *verifkit.Rand) {
 		one("stalled", i, e1GenStalledHistory(rng, false))
+	})
+	// a reload shrinks the kept-decision cache below the number of remembered kept traces; the newest ones get late spans
+	run.Cases("shrink-kept-cache", run.N(20, 300), func(i int, rng *verifkit.Rand) {
+		one("shrink", i, e1GenShrinkKeptHistory(rng))
 	})
 	// decisions take fake time (single worker, small HealthCheckTimeout), many traces due at one tick
 	run.Cases("slow-decisions", run.N(25, 400), func(i int, rng *verifkit.Rand) {
